@@ -59,6 +59,8 @@
      fetches nothing before it runs); the examples show the complete logs of two runs. *)
 From PV Require Import Model.Exec Model.Api Spec.SpecComposeExamples Spec.SpecLoaders.
 From PV Require Import Tie.C11.
+From PV Require Import Model.ParseDoc Spec.SpecLoaders Spec.SpecFetch.
+From PV Require Import Tie.C11f.
 Open Scope N_scope.
 
 Theorem C11_first_loader_wins : forall pre l post idx path g c,
@@ -422,3 +424,157 @@ Proof. vm_compute. reflexivity. Qed.
 Example C11_example_missing_computed :
   api_render_file c11_world [108; 97; 122; 121; 109; 105; 115; 115] (* lazymiss *) [([109] (* m *), str_val [110; 111; 112; 101] (* nope *))] = OExecErr 4 [].
 Proof. vm_compute. reflexivity. Qed.
+
+(* ================= whole compilation: nothing is fetched that is not referenced ================= *)
+(* Property C11, the whole-compilation part: "include, extends, import and ssi obtain exactly the
+   templates they name ... through the set's loaders and from nowhere else; ... and no name is
+   fetched that the templates involved do not reference."
+
+   Props/C11.v says, tag by tag, which one name each tag fetches and what one fetch writes to
+   the loaders' access log.  This file closes the gap it lists as NOT PROVED, for compilation:
+   over a WHOLE compilation (any number of files, any nesting of tags, any depth of
+   include/extends/import/ssi chains) every entry the access log gains is an attempt for a file
+   name that the templates involved reference.
+
+   Definitions (Spec/SpecFetch.v, none of them mentions the parser):
+   - [names_in_source src]: the literal strings that directly follow the tag name of an
+     include / extends / import / ssi tag in the token list of [src] ("{%", tag name, string).
+     It is read off the source text, and it is generous on purpose (a tag inside a comment
+     block or one the parser later rejects still "names" its file): the theorems bound what is
+     fetched from above, so a generous reading asks less trust in the parser, not more.
+     A name computed at run time is not named by the source, and indeed nothing is fetched for
+     it at compile time.
+   - [resolved_from referrer n] = resolve_filename for a file template: the name as the first
+     loader resolves it relative to the referring file.
+   - [source_of se p]: the content of the first loader, in order, that holds [loader_name p].
+   - [reach se entry]: the least set containing [entry] and closed under
+     "p in the set, source_of se p = Some src, src names n  =>  resolved_from p n in the set".
+   - [log_added g g' added]: the log of g' is [added] on top of the log of g (newest first);
+     [attempt_for p e]: log entry e asks a loader for [loader_name p].
+
+   What each theorem contributes:
+   - C11_compile_fetches_only_referenced (main): if compile_file succeeds, every log entry
+     added is an attempt for a name in [reach se name].  For every set, fuel, name and state.
+   - C11_compile_source_fetches_only_referenced: the same for compile_src (a template given as
+     a string, FromString, when isstr = true; then names are taken as written): every entry
+     added is for a name reachable from one of the files the source itself names.
+   - C11_fetches_within_closed_set: the form used for a concrete world: any set of names that
+     contains the entry and is closed under literal references contains every name asked for.
+   - C11_leaf_fetches_exactly_itself: a file whose source names nothing: compiling it adds to
+     the log EXACTLY the attempts for its own name - a miss for every loader before the first
+     holder, one hit - and nothing else (no hypothesis about what the file contains otherwise).
+   - C11_reach_upto_sound / _complete: [reach] is what the level-by-level computation
+     [reach_upto] enumerates, so the set can be computed for a concrete world.
+   - Examples on a world of two loaders (Spec/SpecFetch.v fx_*: main extends base, includes
+     sub/part and a computed name; sub/part ssi's "deep" and includes "gone" if_exists; one
+     file "unused" that nobody references): the complete log, the exact reach set, the unused
+     file is neither reached nor fetched, the computed include fetches nothing, the hypotheses
+     of the theorems hold for it.
+
+   ERROR CASES.  The model returns the compile-wide state (fresh ids, access log) only with a
+   successful result: [res (template * gstate)] carries no state on Err / Fuel / Unmod, so
+   "a failed compilation also fetched only reachable names" cannot be stated of compile_file
+   in this model (the log is dropped, not threaded, through errors).  The one error that is
+   swallowed INSIDE a successful compilation - a literal include with if_exists whose file is
+   missing - is covered by the main theorem: what it records are misses for the named file.
+   REMARK ON THE MODEL (example C11f_model_if_exists_log): when an include ... if_exists names
+   a file that EXISTS but whose own compilation fails with "not found" further down, the model
+   replaces the whole nested log by one miss per loader for the named file, although a loader
+   holds it and the real loaders were also asked for the inner missing name.  The names in the
+   log are still reachable names (the theorems hold); but "the hit flag of every entry tells
+   whether that loader holds the name" and "every fetch made is in the log" are false of the
+   model in this corner, so no such statement is claimed here. *)
+Theorem C11_compile_fetches_only_referenced : forall se fuel name g t g',
+  compile_file se fuel name g = Ok (t, g') ->
+  exists added, log_added g g' added /\
+    forall e, In e added -> exists p, reach se name p /\ attempt_for p e.
+Proof. exact tie_compile_fetches_only_referenced. Qed.
+Print Assumptions C11_compile_fetches_only_referenced.
+
+Theorem C11_compile_source_fetches_only_referenced : forall se fuel name isstr src g t g',
+  compile_src se fuel name isstr src g = Ok (t, g') ->
+  exists added, log_added g g' added /\
+    forall e, In e added ->
+      exists n p, In n (names_in_source src) /\
+                  reach se (resolve_filename isstr name n) p /\ attempt_for p e.
+Proof. exact tie_compile_src_fetches_only_referenced. Qed.
+Print Assumptions C11_compile_source_fetches_only_referenced.
+
+Theorem C11_fetches_within_closed_set : forall se (S : str -> Prop),
+  (forall p src n, S p -> source_of se p = Some src -> In n (names_in_source src) -> S (resolved_from p n)) ->
+  forall fuel name g t g', S name ->
+  compile_file se fuel name g = Ok (t, g') ->
+  exists added, log_added g g' added /\ forall e, In e added -> exists p, S p /\ attempt_for p e.
+Proof. exact tie_compile_fetches_within_closed_set. Qed.
+Print Assumptions C11_fetches_within_closed_set.
+
+Theorem C11_leaf_fetches_exactly_itself : forall se fuel name g t g' src,
+  source_of se name = Some src -> names_in_source src = [] ->
+  compile_file se fuel name g = Ok (t, g') ->
+  log_added g g' (rev (attempts (loader_name name) 0 (se_loaders se))).
+Proof. exact tie_compile_leaf_fetches_itself. Qed.
+Print Assumptions C11_leaf_fetches_exactly_itself.
+
+Theorem C11_reach_upto_sound : forall se entry k p, In p (reach_upto se k entry) -> reach se entry p.
+Proof. exact reach_upto_sound. Qed.
+Print Assumptions C11_reach_upto_sound.
+
+Theorem C11_reach_upto_complete : forall se entry p,
+  reach se entry p -> exists k, In p (reach_upto se k entry).
+Proof. exact reach_upto_complete. Qed.
+Print Assumptions C11_reach_upto_complete.
+
+(* ---------- examples: the world fx_se of Spec/SpecFetch.v ---------- *)
+
+(* the hypothesis of the main theorem holds: main compiles; this is its complete access log,
+   oldest first: main, base (first loader wins over the shadowed copy), sub/part, then what
+   sub/part names, resolved against sub/: sub/deep (miss, then hit in the second loader) and
+   sub/gone (if_exists: one miss per loader).  Nothing for the computed include, nothing for
+   "unused". *)
+Example C11f_example_log :
+  compile_log fx_se fx_main =
+    Some [LGet 0 fx_main true; LGet 0 fx_base true; LGet 0 fx_part true;
+          LGet 0 fx_deep false; LGet 1 fx_deep true;
+          LGet 0 fx_gone false; LGet 1 fx_gone false].
+Proof. vm_compute. reflexivity. Qed.
+
+(* what main and sub/part name, as written *)
+Example C11f_example_names :
+  option_map names_in_source (source_of fx_se fx_main)
+    = Some [[98; 97; 115; 101] (* base *); [115; 117; 98; 47; 112; 97; 114; 116] (* sub/part *)] /\
+  option_map names_in_source (source_of fx_se fx_part)
+    = Some [[100; 101; 101; 112] (* deep *); [103; 111; 110; 101] (* gone *)].
+Proof. vm_compute. split; reflexivity. Qed.
+
+(* the reach set of main is exactly these five names *)
+Example C11f_example_reach : forall p, reach fx_se fx_main p <-> In p fx_reachable.
+Proof. exact fx_reach_exact. Qed.
+Print Assumptions C11f_example_reach.
+
+Example C11f_example_unused_not_reached : ~ reach fx_se fx_main fx_unused.
+Proof. exact fx_unused_not_reached. Qed.
+
+(* every name in the log is the loader name of a reached file (what the theorem promises) *)
+Example C11f_example_log_within_reach :
+  match compile_log fx_se fx_main with
+  | Some l => forallb (fun e => str_in (attempt_name e) (map loader_name fx_reachable)) l
+  | None => false
+  end = true.
+Proof. vm_compute. reflexivity. Qed.
+
+(* leaves: base names nothing and is held by the first loader; sub/deep names nothing and is
+   held by the second one: the hypotheses of C11_leaf_fetches_exactly_itself hold, and the logs
+   are the attempts for the file's own name *)
+Example C11f_example_leaf :
+  option_map names_in_source (source_of fx_se fx_base) = Some [] /\
+  compile_log fx_se fx_base = Some [LGet 0 fx_base true] /\
+  option_map names_in_source (source_of fx_se fx_deep) = Some [] /\
+  compile_log fx_se fx_deep = Some [LGet 0 fx_deep false; LGet 1 fx_deep true].
+Proof. vm_compute. repeat split; reflexivity. Qed.
+
+(* the remark on if_exists: "a" is held by loader 0, yet the log of compiling m records a miss
+   for it, and the attempt for the inner name "nope" is gone *)
+Example C11f_model_if_exists_log :
+  source_of fy_se [97] (* a *) <> None /\
+  compile_log fy_se [109] (* m *) = Some [LGet 0 [109] true; LGet 0 [97] false].
+Proof. vm_compute. split; [discriminate|reflexivity]. Qed.
